@@ -132,8 +132,9 @@ Definition complete (c : chunk) (d : bytes) : bool := len d =? c_clen c.
 
 Definition chunk_ok (c : chunk) (d : bytes) : bool := complete c d && digest_ok c d.
 
-(** the first index entry is not read at all when its uncompressed length is 0 *)
-Definition skipped (first : bool) (c : chunk) : bool := first && (c_ulen c =? 0).
+(** the first index entry is not read at all when both its uncompressed and its stored
+    length are 0 (the empty dictionary entry) *)
+Definition skipped (first : bool) (c : chunk) : bool := first && (c_ulen c =? 0) && (c_clen c =? 0).
 
 Definition scan_flag (first : bool) (s : slot) : flag :=
   if skipped first (s_chunk s) then Valid
@@ -209,22 +210,20 @@ Definition missing_count (sl : list slot) : nat := length (filter is_missing sl)
 (* ------------------------------------------------------------------------------------ *)
 (** * zck_get_missing_range *)
 
-(** Walk the index in file order; every chunk with valid == 0 is added ([range_add] +
-    [range_merge_combined]: an extent that starts where the previous item ends is merged
-    into it, otherwise it is a new item); stop as soon as the item count has reached
-    [maxr].  Result: the indices of the requested chunks and the item count.
+(** Walk the index in file order; every chunk with valid == 0 that has stored bytes is added
+    ([range_add] + [range_merge_combined]: an extent that starts where the previous item
+    ends is merged into it, otherwise it is a new item); a zero-length chunk has no bytes
+    to request and is passed over; stop as soon as the item count has reached [maxr].
+    Result: the indices of the requested chunks and the item count.
     [i] index of the head of [sl], [off] its offset in the data section, [last] the
-    (exclusive) end of the last item, [cnt] the item count so far.
-    Not modelled: the count bookkeeping of range_add for a missing zero-length chunk that
-    is followed by a missing chunk at the same offset (counted twice by the code); a
-    zero-length entry of a spec-valid B is never missing unless a checksum collides. *)
+    (exclusive) end of the last item, [cnt] the item count so far. *)
 Fixpoint missing_range (maxr : N) (i : nat) (off : N) (last : option N) (cnt : N) (sl : list slot)
   : list nat * N :=
   match sl with
   | [] => ([], cnt)
   | s :: rest =>
       let l := c_clen (s_chunk s) in
-      if is_missing s then
+      if is_missing s && negb (l =? 0) then
         let merged := match last with Some e => off <=? e | None => false end in
         let cnt' := if merged then cnt else cnt + 1 in
         if maxr <=? cnt' then ([i], cnt')
@@ -261,7 +260,20 @@ Fixpoint place (req : list nat) (i : nat) (sl : list slot) : list slot * bool :=
 (* ------------------------------------------------------------------------------------ *)
 (** * the request loop of main() with the range_attempt back-off *)
 
-Inductive status := Done (exit_code : N) | OutOfFuel | TableOOB.
+(** [EmptyRange]: chunks are missing but all of them have stored length 0, so the range
+    computed for the next request is empty.  The code does not notice: zck_get_range_char
+    returns "", libcurl sends "Range: bytes=", and no response can make a zero-length chunk
+    valid (the callbacks only see chunks that are in the range).  What follows depends on
+    the server: one that rejects the header (416) makes zckdl exit 1; one that ignores it
+    (200, as RFC 7233 allows) counts as a refused request: ra_index, already advanced to
+    the last table entry by the item count 0, is incremented past the table
+    (max_ranges := range_attempt[5], an out-of-bounds read) and the loop never ends.
+    The model stops here.  A zero-length chunk is missing at this point only if its index
+    digest is not all zeros (then B does not pass validate_chunk: excluded by [wf_new],
+    and never written by the library, whose only zero-length entry is the empty dictionary
+    with a zero digest) or if the validity scan invalidated every chunk because the data
+    digest failed although each chunk checksum matched (a checksum collision). *)
+Inductive status := Done (exit_code : N) | OutOfFuel | TableOOB | EmptyRange.
 
 Inductive event :=
   | Served (req : list nat) (count : N)       (* 206: the extents of these chunks were sent *)
@@ -310,6 +322,7 @@ Fixpoint dl_loop (fuel : nat) (B : newfile) (srv_limit : N) (hdr extra : bytes)
     | O => mkO OutOfFuel (mkT hdr sl extra) ev
     | S fuel' =>
         let (req, count) := missing_range maxr 0 0 None 0 sl in
+        match req with [] => mkO EmptyRange (mkT hdr sl extra) ev | _ :: _ =>
         match advance (length range_attempt) ra count with
         | None => mkO TableOOB (mkT hdr sl extra) ev
         | Some ra1 =>
@@ -326,6 +339,7 @@ Fixpoint dl_loop (fuel : nat) (B : newfile) (srv_limit : N) (hdr extra : bytes)
                 | Some m => dl_loop fuel' B srv_limit hdr extra m (S ra1) sl (ev ++ [Refused req count])
                 end
               else dl_loop fuel' B srv_limit hdr extra maxr ra1 sl (ev ++ [Refused req count])
+        end
         end
     end
   end.
